@@ -15,7 +15,7 @@ struct KeyM {
 };
 struct PreM { Buf pre; std::vector<MAttr> list; };
 struct CtM { Buf ct; std::vector<Bn> exps; GTv msg; bool tainted = false; bool degenerate = false; };
-struct SigM { Buf sig; std::vector<MAttr> list; Bn msg; bool expect_valid = true; };
+struct SigM { Buf sig; std::vector<MAttr> list; Bn msg; bool expect_valid = true; bool degenerate = false; };
 
 struct WkdRun {
     RunEnv& env; W w; Rep& R; int view; SysM sys;
@@ -50,6 +50,9 @@ struct WkdRun {
         return y;
     }
     void expect_no_draws(const char* what) { if (!env.stream.reqs.empty()) env.fail("C11", "deterministic-op-drew-randomness", std::string(what) + " consumed random bytes"); }
+
+    // tokens after the l slot directives of an op are stream faults for the op's draw
+    std::vector<std::string> trailing_faults(const Op& op, size_t ndirectives) { std::vector<std::string> f; for (size_t i = ndirectives; i < op.s.size(); i++) f.push_back(op.s[i]); return f; }
 
     KeyM newkey(size_t cap) {
         KeyM k; k.cap = cap; size_t fs = R.sz(JV_SZ_WK_FREESLOT);
@@ -194,7 +197,8 @@ struct WkdRun {
         std::vector<Slot> parent((size_t) sys.l), child; std::vector<MAttr> attrs;
         resolve(parent, op.s, 0, omit_all, attrs, child);
         KeyM k = newkey((size_t) sys.l - attrs.size()); JAttrs ja(attrs, omit_all);
-        call_begin((uint64_t) op.arg(0), nullptr);
+        std::vector<std::string> sf = trailing_faults(op, (size_t) sys.l);
+        call_begin((uint64_t) op.arg(0), &sf);
         if (nd) { R.jv_wk_nd_keygen(view, k.sk, sys.params, sys.msk, &ja.l); expect_no_draws("nondelegable_keygen"); k.rho = Bn(1); }
         else { R.jv_wk_keygen(view, k.sk, sys.params, sys.msk, &ja.l, jv_rand_cb); k.rho = drawn_scalar("keygen"); }
         k.pat = child;
@@ -211,7 +215,8 @@ struct WkdRun {
         resolve(pk->pat, op.s, 0, omit_all, attrs, child);
         if (attrs.size() > (size_t) sys.l) return;
         KeyM k = newkey((size_t) sys.l - attrs.size()); JAttrs ja(attrs, omit_all);
-        call_begin((uint64_t) op.arg(0));
+        std::vector<std::string> sf = trailing_faults(op, (size_t) sys.l);
+        call_begin((uint64_t) op.arg(0), &sf);
         if (nd) { R.jv_wk_nd_qualifykey(view, k.sk, sys.params, pk->sk, &ja.l); expect_no_draws("nondelegable_qualifykey"); k.rho = pk->rho; k.ndchild = true; k.ndparent = (int) pi; k.ndlist = attrs; }
         else { R.jv_wk_qualifykey(view, k.sk, sys.params, pk->sk, &ja.l, jv_rand_cb); k.rho = Bn::addmod(pk->rho, drawn_scalar("qualifykey"), K().r); }
         k.pat = child;
@@ -246,7 +251,8 @@ struct WkdRun {
             for (auto& a : fromL) if (a.id >= K().r) env.count("probe:adjust_from_id_ge_r");
             for (auto& a : fromL) if (a.omit) env.count("probe:adjust_from_has_hidden_entry");
             for (auto& a : to) if (a.omit) env.count("probe:adjust_to_has_hidden_entry");
-            check_key(kk, "C14", "adjust_nondelegable parent " + pat_str(keys[pi].pat) + " from " + list_str(fromL) + " to " + list_str(to), b + 1 == blocks);
+            // a wrong adjusted key breaks C14 (incremental = from scratch) and C11 (every key of a history incl. adjustment steps is well-formed)
+            check_key(kk, env.focus == "C11" ? "C11" : "C14", "adjust_nondelegable parent " + pat_str(keys[pi].pat) + " from " + list_str(fromL) + " to " + list_str(to), b + 1 == blocks);
             transition_case("adjustnd", before, nxt, false);
             if (b > 1) env.count("probe:adjust_chain_step");
         }
@@ -259,7 +265,8 @@ struct WkdRun {
         Buf pre(R.sz(JV_SZ_WK_PRE)); env.lib_calls++; R.jv_wk_precompute(view, pre, sys.params, &ja.l);
         size_t pl = count_free(pk->pat);
         KeyM k = newkey(further ? pl : 0);
-        call_begin((uint64_t) op.arg(0)); R.jv_wk_resamplekey(view, k.sk, sys.params, pre, pk->sk, further, jv_rand_cb);
+        std::vector<std::string> sf = trailing_faults(op, 0);
+        call_begin((uint64_t) op.arg(0), &sf); R.jv_wk_resamplekey(view, k.sk, sys.params, pre, pk->sk, further, jv_rand_cb);
         k.rho = Bn::addmod(pk->rho, drawn_scalar("resamplekey"), K().r);
         k.pat = pk->pat; if (!further) for (auto& s : k.pat) if (s.st == ST_FREE) s.st = ST_HIDDEN;
         std::vector<Slot> ppat = pk->pat;
@@ -334,7 +341,10 @@ struct WkdRun {
         bool opens = w.ct(out) == w.ct(c.msg), should = exps_equal(exps_of_pattern(pk->pat), c.exps);
         env.logf("DEC opens=%d should=%d", opens, should);
         if (!pk->tainted && !c.tainted && should && !opens) env.fail("C11", "decrypt:matching-key-opens", "key for pattern " + pat_str(pk->pat) + " failed to decrypt a ciphertext for the same attribute values");
-        if (!should && opens && !c.degenerate) env.fail("C12", "decrypt:non-matching-key-must-not-open", strf("key for pattern %s decrypted a ciphertext whose attribute list differs%s", pat_str(pk->pat).c_str(), pk->tainted ? " (key obtained by an attack op)" : ""));
+        // a key whose randomness is 0 mod r (reachable only through a scripted stream: e.g. rho = 1 from a non-delegable keygen plus a
+        // scripted t = r-1) is the bare master secret and opens everything by construction of the scheme; not a negative-oracle subject
+        if (pk->rho.is_zero()) env.count("probe:key_randomness_zero");
+        if (!should && opens && !c.degenerate && !pk->rho.is_zero()) env.fail("C12", "decrypt:non-matching-key-must-not-open", strf("key for pattern %s decrypted a ciphertext whose attribute list differs%s", pat_str(pk->pat).c_str(), pk->tainted ? " (key obtained by an attack op)" : ""));
         env.count(should ? "probe:decrypt_matching_pair" : "probe:decrypt_mismatching_pair");
         env.add_case(strf("dec %s should%d", pat_str(pk->pat).c_str(), should), !should);
     }
@@ -369,8 +379,12 @@ struct WkdRun {
         uint8_t m32[32]; sg.msg.to_le(m32, 32);
         JAttrs ja(L, false); sg.sig.alloc(R.sz(JV_SZ_WK_SIG));
         uint64_t ss = (uint64_t) op.arg(0);
-        call_begin(ss); R.jv_wk_sign(view, sg.sig, sys.params, pk->sk, &ja.l, m32, jv_rand_cb);
+        std::vector<std::string> sf = trailing_faults(op, (size_t) sys.l);
+        call_begin(ss, &sf); R.jv_wk_sign(view, sg.sig, sys.params, pk->sk, &ja.l, m32, jv_rand_cb);
         Bn s = drawn_scalar("sign");
+        // total signature randomness rho+s = 0 mod r (scripted streams only) gives (g2^alpha, 1), which verifies for every message
+        // and list by construction of the scheme: the negative oracles of C13 do not apply to it
+        if (Bn::addmod(pk->rho, s, K().r).is_zero()) { sg.degenerate = true; env.count("probe:signature_randomness_zero"); }
         if (sg.expect_valid) {
             Bn rs = Bn::addmod(pk->rho, s, K().r);
             G1v base = w.g1add(expected_prodexp(L), w.g1mul(sys.hsig, Bn::mod(sg.msg, K().r)));
@@ -379,13 +393,14 @@ struct WkdRun {
         }
         if (op.arg(3)) {   // C14: sign_precomputed interchangeable
             Buf pre(R.sz(JV_SZ_WK_PRE)), sig2(R.sz(JV_SZ_WK_SIG)); env.lib_calls++; R.jv_wk_precompute(view, pre, sys.params, &ja.l);
-            call_begin(ss); R.jv_wk_sign_precomputed(view, sig2, sys.params, pk->sk, &ja.l, pre, m32, jv_rand_cb);
+            call_begin(ss, &sf); R.jv_wk_sign_precomputed(view, sig2, sys.params, pk->sk, &ja.l, pre, m32, jv_rand_cb);
             env.check(wk_marshal(R, view, JV_OK_WK_SIG, sg.sig, true) == wk_marshal(R, view, JV_OK_WK_SIG, sig2, true), "C14", "sign_precomputed:interchangeable", "sign and sign_precomputed with the same stream differ for " + list_str(L));
             env.count("probe:sign_vs_sign_precomputed_compared");
         }
         bool ok = verify_both(sg.list, sg.sig, sg.msg, "fresh signature");
         if (sg.expect_valid && !ok) env.fail("C13", "verify:accepts-valid", "signature by key " + pat_str(pk->pat) + " on list " + list_str(L) + " does not verify");
-        if (!sg.expect_valid && ok) env.fail("C13", "verify:rejects-incompatible-signer", "signature made by a key whose pattern " + pat_str(pk->pat) + " is incompatible with list " + list_str(L) + " verifies");
+        // a signer whose key randomness is 0 mod r holds the bare master secret (scripted streams only) and can sign under any list
+        if (!sg.expect_valid && ok && !sg.degenerate && !pk->rho.is_zero()) env.fail("C13", "verify:rejects-incompatible-signer", "signature made by a key whose pattern " + pat_str(pk->pat) + " is incompatible with list " + list_str(L) + " verifies");
         env.logf("SIGN %s valid=%d ok=%d", list_str(L).c_str(), sg.expect_valid, ok);
         env.add_case(strf("sign %s ext%zu inc%d", pat_str(pk->pat).c_str(), L.size(), incompatible), true);
         sigs.push_back(std::move(sg));
@@ -425,14 +440,14 @@ struct WkdRun {
         bool ok = verify_both(L, sig, m, what);
         env.logf("VERIFY %s expect=%d ok=%d", what.c_str(), expect, ok);
         if (expect && !ok) env.fail("C13", "verify:accepts-valid", "valid signature rejected (" + what + ")");
-        if (!expect && ok) env.fail("C13", "verify:rejects-altered", "verification succeeded although " + what + "; signed list " + list_str(sg.list));
+        if (!expect && ok && !sg.degenerate) env.fail("C13", "verify:rejects-altered", "verification succeeded although " + what + "; signed list " + list_str(sg.list));
         env.count(std::string("fault:verify_") + (expect ? "unaltered" : "altered"));
         env.add_case(strf("verify mut%d n%zu", mut, L.size()), !expect);
     }
 
     // ATTACK sseed key how valcode : try to fill a hidden slot through the public API
     void op_attack(const Op& op) {
-        KeyM* pk = pick_key(op.arg(1)); if (!pk || pk->tainted) return;
+        KeyM* pk = pick_key(op.arg(1)); if (!pk || pk->tainted || pk->rho.is_zero()) return;
         size_t pi = (size_t) (pk - &keys[0]);
         int hidden = -1; size_t skip = (size_t) op.arg(4);
         std::vector<int> hs; for (int i = 0; i < sys.l; i++) if (pk->pat[(size_t) i].st == ST_HIDDEN) hs.push_back(i);
@@ -552,13 +567,15 @@ struct WkdScenario : Scenario {
         if (focus == 15) { wts[13] += 14; wts[6] += 3; wts[9] += 3; }
         int tot = 0; for (int i = 0; i < 14; i++) tot += wts[i];
         p.ops.push_back({"KEYGEN", {(int64_t) (r.next() >> 1), r.chance(1, 6), r.chance(1, 4)}, directives(r, l)});
+        static const char* sfl[] = {"storm8:3", "tupler", "tuplerp1", "tuple:r-1", "tuple:1", "tuple:2", "digit:xm1", "storm8:9"};
+        auto maybe_fault = [&](Op& o) { if (r.chance(1, 6)) o.s.push_back(sfl[r.below(8)]); };
         for (int n = 1; n < nops; n++) {
             int x = (int) r.below((uint64_t) tot), k = 0; while (x >= wts[k]) { x -= wts[k]; k++; }
             int64_t ss = (int64_t) (r.next() >> 1); std::string kind = kinds[k];
-            if (kind == "KEYGEN") p.ops.push_back({kind, {ss, r.chance(1, 6), r.chance(1, 3)}, directives(r, l)});
-            else if (kind == "QUALIFY") p.ops.push_back({kind, {ss, (int64_t) r.below(64), r.chance(1, 6), r.chance(1, 3)}, directives(r, l)});
+            if (kind == "KEYGEN") { Op o{kind, {ss, r.chance(1, 6), r.chance(1, 3)}, directives(r, l)}; maybe_fault(o); p.ops.push_back(o); }
+            else if (kind == "QUALIFY") { Op o{kind, {ss, (int64_t) r.below(64), r.chance(1, 6), r.chance(1, 3)}, directives(r, l)}; maybe_fault(o); p.ops.push_back(o); }
             else if (kind == "ADJUST") p.ops.push_back({kind, {(int64_t) r.below(64)}, directives(r, l, r.range(2, 4))});
-            else if (kind == "RESAMPLE") p.ops.push_back({kind, {ss, (int64_t) r.below(64), r.chance(2, 3)}, {}});
+            else if (kind == "RESAMPLE") { Op o{kind, {ss, (int64_t) r.below(64), r.chance(2, 3)}, {}}; maybe_fault(o); p.ops.push_back(o); }
             else if (kind == "PRECOMP") p.ops.push_back({kind, {(int64_t) r.below(64), (int64_t) r.below(1 << 16)}, {}});
             else if (kind == "ADJPRE") p.ops.push_back({kind, {(int64_t) r.below(64), (int64_t) r.below(64), (int64_t) r.below(1 << 16)}, {}});
             else if (kind == "ENC") {
@@ -568,7 +585,7 @@ struct WkdScenario : Scenario {
             }
             else if (kind == "DEC") p.ops.push_back({kind, {(int64_t) r.below(64), (int64_t) r.below(64)}, {}});
             else if (kind == "DECM") p.ops.push_back({kind, {(int64_t) r.below(64)}, {}});
-            else if (kind == "SIGN") p.ops.push_back({kind, {ss, (int64_t) r.below(64), r.chance(1, 4) ? (int64_t) (100 + r.below(1000)) : (int64_t) r.below(11), r.chance(1, 2), r.chance(1, 5) ? r.range(1, 2) : 0}, directives(r, l)});
+            else if (kind == "SIGN") { Op o{kind, {ss, (int64_t) r.below(64), r.chance(1, 4) ? (int64_t) (100 + r.below(1000)) : (int64_t) r.below(11), r.chance(1, 2), r.chance(1, 5) ? r.range(1, 2) : 0}, directives(r, l)}; maybe_fault(o); p.ops.push_back(o); }
             else if (kind == "VERIFY") p.ops.push_back({kind, {(int64_t) r.below(64), (int64_t) r.below(9), (int64_t) r.below(64)}, {}});
             else if (kind == "ATTACK") p.ops.push_back({kind, {ss, (int64_t) r.below(64), (int64_t) r.below(4), (int64_t) r.below(11), (int64_t) r.below(8)}, {}});
             else if (kind == "TAMPERCT") p.ops.push_back({kind, {(int64_t) r.below(64), (int64_t) r.below(3)}, {}});
@@ -612,7 +629,7 @@ struct WkdScenario : Scenario {
         std::vector<Op> out; const Op& op = p.ops[i];
         // directives: '-' is simplest, then plain fix of 1, then hide
         for (size_t k = 0; k < op.s.size(); k++) {
-            if (op.kind == "ENC" || op.kind == "HOP") { Op o = op; o.s.erase(o.s.begin() + (long) k); out.push_back(o); continue; }
+            if (op.kind == "ENC" || op.kind == "HOP" || op.kind == "RESAMPLE" || (op.kind != "ADJUST" && k >= (size_t) p.c("l"))) { Op o = op; o.s.erase(o.s.begin() + (long) k); out.push_back(o); continue; }
             if (op.s[k] != "-") { Op o = op; o.s[k] = "-"; out.push_back(o); }
             if (op.s[k].compare(0, 2, "f:") == 0 && op.s[k] != "f:1") { Op o = op; o.s[k] = "f:1"; out.push_back(o); }
             if (op.s[k] == "h~") { Op o = op; o.s[k] = "h"; out.push_back(o); }
